@@ -548,6 +548,15 @@ int qsx_more_commands (const char *c)
 		if (!rv) { printf ("order %d", nr); for (i = 0; i < nr; i++) printf (" %d", h[i]); putchar ('\n'); }
 		free (h);
 	}
+	else if (!strcmp (c, "restart"))
+	{
+		/* a second library session in the same process: the host's log handler stays registered */
+		int k;
+		for (k = 0; k < NSLOT; k++) if (SLOT[k]) { mpq_QSfree_prob (SLOT[k]); SLOT[k] = 0; }
+		QSexactClear ();
+		QSexactStart ();
+		printf ("ok\n");
+	}
 	else if (!strcmp (c, "getfile")) { char *path = unhex (tok ()); put_file (path); free (path); }
 	else { extern int qsx_factor_commands (const char *c); return qsx_factor_commands (c); }
 	return 1;
